@@ -20,7 +20,7 @@ TIMING = re.compile(r"(in|took|parsed in) \d+\.\d+s")
 
 @st.composite
 def cases(draw):
-    avoid = set(c01.AVOID_BY_KEY.values())
+    avoid = c01.current_avoid()
     p = draw(gen.programs({"features": set(gen.FEATURES) - {"faults"}, "avoid": avoid, "max_fns": 4, "max_types": 3, "max_stmts": 7}))
     kind = draw(st.sampled_from(["single", "single", "multi", "invalid"]))
     files = {"main.capy": program_src(p)}
